@@ -3,9 +3,17 @@ use crate::engine::*;
 
 pub mod c01;
 pub mod c01_rules;
+pub mod c06;
+mod c06_sql;
+mod c06_vals;
+pub mod c11;
+mod c11_data;
+pub mod c19;
+mod c19_model;
+pub mod c20;
 pub mod selftest;
 pub mod sqlcase;
 
 pub fn all() -> Vec<PropDef> {
-    vec![selftest::def(), c01::def()]
+    vec![selftest::def(), c01::def(), c06::def(), c11::def(), c19::def(), c20::def()]
 }
